@@ -9,4 +9,5 @@ mkdir -p .build
 ( cd harness && CARGO_TARGET_DIR=/verif/.build/target cargo build --release --offline )
 ( cd harness && CARGO_TARGET_DIR=/verif/.build/target-par cargo build --release --offline --features par )
 ( cd harness && CARGO_TARGET_DIR=/verif/.build/target-kurbo cargo build --release --offline --features kurbo )
+( cd harness && CARGO_TARGET_DIR=/verif/.build/target-debug cargo build --offline )
 echo setup-ok
